@@ -182,7 +182,8 @@ TPM_Manufacture(
     // that what should be the expected behavior if the NV write fails at this
     // point.  Therefore, it is assumed the NV write here is always success and
     // no return code of this function is checked.
-    NvCommit();
+    if(!NvCommit())	// libtpms changed: the storage callback may refuse the state
+	return -1;
     g_manufactured = TRUE;
     return 0;
 }
